@@ -30,6 +30,44 @@ def main():
         if not np.all(np.isfinite(f)):
             print("NONFINITE")
             return 1
+    # "the explicit and implicit variants agree to third order in dt" - with the operator's default tolerance, down to small steps
+    # (an iteration that stops early leaves a difference that does not shrink with dt)
+    errs = []
+    for k in range(3, 9):
+        dt = 2.0 ** -k
+        fi, fe = f0.copy(), f0.copy()
+        PoloidalAdvection(eta, [bt, br], c, nulEdge=True, explicitTrap=False).step(fi, dt, phi, 0.0)
+        PoloidalAdvection(eta, [bt, br], c, nulEdge=True, explicitTrap=True).step(fe, dt, phi, 0.0)
+        errs.append(float(np.max(np.abs(fi - fe)[:, 2:-2])))      # nodes whose feet stay inside the radial domain
+    print("ORDER " + " ".join("%.3e" % e for e in errs))
+    # "converged implicit iteration": tightening the tolerance far below the default does not change the result - on a sheared
+    # vortex, where the fixed-point map contracts slowly
+    nt2, nr2 = 24, 20
+    bt2 = spl.BSplines(spl.make_knots(np.linspace(0, 2 * np.pi, nt2 + 1), 3, True), 3, True, True)
+    br2 = spl.BSplines(spl.make_knots(np.linspace(2.0, 14.5, nr2 - 2), 3, False), 3, False, True)
+    eta2 = [np.array(br2.greville), np.array(bt2.greville), np.array([0.0]), np.array([0.0])]
+    th2, r2 = np.meshgrid(eta2[1], eta2[0], indexing="ij")
+    phi2 = spl.Spline2D(bt2, br2)
+    SplineInterpolator2D(bt2, br2).compute_interpolant(10 * np.exp(-((r2 * np.cos(th2) - 7) ** 2 + (r2 * np.sin(th2)) ** 2) / 9), phi2)
+    g0 = np.exp(-((r2 - 8.0) / 3.0) ** 2) * (1 + 0.3 * np.cos(3 * th2))
+    dev = 0.0
+    for dt in (0.3, -0.5):
+        fd, ft = g0.copy(), g0.copy()
+        PoloidalAdvection(eta2, [bt2, br2], c, nulEdge=True, explicitTrap=False).step(fd, dt, phi2, 0.0)
+        PoloidalAdvection(eta2, [bt2, br2], c, nulEdge=True, explicitTrap=False, tol=1e-12).step(ft, dt, phi2, 0.0)
+        dev = max(dev, float(np.max(np.abs(fd - ft)[:, 2:-2])))
+    print("CONV %.3e" % dev)
+    # another argument form: f handed over as a strided view (the step works in place on the caller's array)
+    form = 0.0
+    for expl in (True, False):
+        wide = np.zeros((nt, 2 * nr))
+        wide[:, ::2] = f0
+        view = wide[:, ::2]
+        ref = f0.copy()
+        PoloidalAdvection(eta, [bt, br], c, nulEdge=True, explicitTrap=expl).step(view, 0.4, phi, 0.0)
+        PoloidalAdvection(eta, [bt, br], c, nulEdge=True, explicitTrap=expl).step(ref, 0.4, phi, 0.0)
+        form = max(form, float(np.max(np.abs(wide[:, ::2] - ref))), float(np.max(np.abs(wide[:, 1::2]))))
+    print("FORM %.3e" % form)
     print("DONE")
     return 0
 
